@@ -67,7 +67,7 @@ def field(ty, name="", dw=""):
 
 def enum(did, variants, style="none", prefix=None, aci=False, phf=False, perr=False, cis=False, generics="none",
          repr_="none", crate="none", split=0, name=None, **extra):
-    d = dict(id=did, name=name or ("E%d" % did), style=style, prefix=[] if prefix is None else [cp(prefix)], aci=aci,
+    d = dict(id=did, name=name or ("E%d" % did), namecp=cp(name or ("E%d" % did)), style=style, prefix=[] if prefix is None else [cp(prefix)], aci=aci,
              phf=phf, perr=perr, cis=cis, generics=generics, repr=repr_, crate=crate, split=split,
              variants=list(variants))
     d.update(extra)
